@@ -544,7 +544,7 @@ def run(ctx):
     depth, slots, btfs = (8, "{1}", "{0, 1, 2, 3}") if ctx.quick else (14, "{1}", "{0, 1, 2, 3, 5}")
     with open(os.path.join(ctx.rundir, "MC_Transmission_run.cfg"), "w") as f:
         f.write(CFG.format(depth=depth, slots=slots, btfs=btfs, endall="TRUE"))
-    res = core.run_tlc(ctx, "MC_Transmission", "MC_Transmission_run.cfg", timeout=1500)
+    res = core.run_tlc(ctx, "MC_Transmission", "MC_Transmission_run.cfg", timeout=3000, workers=1)   # one worker: strict BFS, so the level bound and the VIEW give the same graph on every run
     if res.violated:
         ctx.note("design_counterexample", {"violated": res.violated,
                                            "trace": [s.get("_action") for s in res.trace]})
@@ -556,7 +556,7 @@ def run(ctx):
     with open(os.path.join(ctx.rundir, "MC_Transmission_2.cfg"), "w") as f:
         f.write(CFG.format(depth=5 if ctx.quick else 7, slots="{1, 2}", btfs="{0, 2}", endall="TRUE")
                 .replace("ACTION_CONSTRAINT Edge\n", ""))
-    res2 = core.run_tlc(ctx, "MC_Transmission", "MC_Transmission_2.cfg", timeout=1500)
+    res2 = core.run_tlc(ctx, "MC_Transmission", "MC_Transmission_2.cfg", timeout=3000, workers=1)
     if res2.violated:
         ctx.note("design_counterexample_2slots", res2.violated)
     ctx.exhaustive = True
